@@ -250,22 +250,27 @@ func (c *Channel) Invoke(ctx context.Context, method string, req, resp interface
 			sts.Finish()
 			close(ch)
 		}()
+		verifPoint(ctx, "unary.server.start", "")
 		ctx := grpc.NewContextWithServerTransportStream(makeServerContext(ctx), &sts)
 		v, err := md.Handler(handler, ctx, codec, c.unaryInterceptor)
 		if h := sts.GetHeaders(); len(h) > 0 {
+			verifPoint(ctx, "unary.server.beforeWrite", "headers")
 			_ = writeMessage(ctx, nil, ch, frame{headers: h})
 		}
 		if err == nil {
 			if isNil(v) {
 				err = status.Errorf(codes.Internal, "handler returned neither error nor response message")
 			} else {
+				verifPoint(ctx, "unary.server.beforeWrite", "data")
 				_ = writeMessage(ctx, nil, ch, frame{data: v})
 			}
 		}
 		if t := sts.GetTrailers(); len(t) > 0 {
+			verifPoint(ctx, "unary.server.beforeWrite", "trailers")
 			_ = writeMessage(ctx, nil, ch, frame{trailers: t})
 		}
 		if err != nil {
+			verifPoint(ctx, "unary.server.beforeWrite", "error")
 			_ = writeMessage(ctx, nil, ch, frame{err: internal.HandlerErrorToStatus(err)})
 		}
 	}()
@@ -274,6 +279,11 @@ func (c *Channel) Invoke(ctx context.Context, method string, req, resp interface
 	for {
 		select {
 		case r, ok := <-ch:
+			if !ok {
+				verifPoint(ctx, "unary.client.afterRead", "closed")
+			} else {
+				verifPoint(ctx, "unary.client.afterRead", r.String())
+			}
 			if !ok {
 				// no more messages
 				if !gotResponse {
